@@ -437,3 +437,127 @@ func init() {
 		{"indirectBuildChecksEncoding", buildCheckFlag("trillian/ctfe/services.go")},
 	}})
 }
+
+// ---- deepening round: whole bodies of the external-storage service -------------------------------------------------------
+
+func init() {
+	sv := "trillian/ctfe/services.go"
+	register(genFile{name: "ChainStoreBodies", imports: []string{"CTV.Basic.I64", "CTV.Basic.ErrKind"}, units: []unit{
+		// getByHash: (what is handed back: 0 nothing / 1 the chain, is-error, "the detached cache fill was started")
+		{"getByHashBody", handlerKernel(sv, "indirectIssuanceChainService.getByHash", "getByHashBody",
+			"(cacheFails cacheHit findFails hashBad : Bool)", "Nat × Bool × Bool", "let filled_ := false\n  ", "(0, false, filled_)",
+			Spec{Kind: "u64", Lazy: true, Inline: false, Ret: "statusstate", StateVars: []string{"filled_"}, Ignore: []string{"klog."},
+				Status:   map[string]int{"nil": 0, "*": 1},
+				ErrCalls: map[string]string{"s.cache.Get": "cacheFails", "s.storage.FindByKey": "findFails"},
+				InitCond: map[string]string{"err := checkIssuanceChainHash(hash, chain) ; err != nil": "hashBad"},
+				AppendEffect: map[string]string{"stmt:go": "filled_ := true"},
+				Repl:         map[string]string{"chain != nil": "cacheHit"}})},
+		// add: (what is handed back: 0 nothing / 1 the hash, is-error, "storage.Add succeeded", "cache fill started")
+		{"addBody", handlerKernel(sv, "indirectIssuanceChainService.add", "addBody",
+			"(cacheFails cacheHit addFails : Bool)", "Nat × Bool × Bool × Bool", "let stored_ := false\n  let filled_ := false\n  ", "(0, false, stored_, filled_)",
+			Spec{Kind: "u64", Lazy: true, Canon: true, Ret: "statusstate", StateVars: []string{"stored_", "filled_"}, Ignore: []string{"klog."},
+				Bind:     map[string]string{"issuanceChainHash": "hash"},
+				Status:   map[string]int{"nil": 0, "*": 1},
+				ErrCalls: map[string]string{"s.storage.Add": "addFails|stored_ := (!addFails)", "s.cache.Get": "cacheFails"},
+				IgnoreLHS: []string{"cachedChain"},
+				Repl:         map[string]string{"cachedChain != nil": "cacheHit", "err == nil": "(!cacheFails)"},
+				AppendEffect: map[string]string{"stmt:go": "filled_ := true"}})},
+		// FixLogLeaf: (returned nil, which layout was rewritten: 0 none / 1 PrecertChainEntryHash / 2 CertificateChainHash, "leaf.ExtraData was assigned")
+		{"fixLogLeafBody", handlerKernel(sv, "indirectIssuanceChainService.FixLogLeaf", "fixLogLeafBody",
+			"(leafNil isPCEH isCCH isPCE isCC hashNonEmpty lookupFails derBad derTrailing encFails : Bool)", "Bool × Nat × Bool", "let form_ := (0 : Nat)\n  let assigned_ := false\n  ", "(true, form_, assigned_)",
+			Spec{Kind: "u64", Lazy: true, Inline: true, Ret: "errboolstate", StateVars: []string{"form_", "assigned_"}, Ignore: []string{"klog."},
+				ErrCalls: map[string]string{"s.getByHash": "lookupFails", "asn1.Unmarshal": "derBad", "tls.Marshal(precertChain": "encFails|form_ := (1 : Nat)", "tls.Marshal(certChain": "encFails|form_ := (2 : Nat)"},
+				InitCond: map[string]string{
+					"rest, err := tls.Unmarshal(leaf.ExtraData, &precertChainHash) ; err == nil && len(rest) == 0": "isPCEH",
+					"rest, err := tls.Unmarshal(leaf.ExtraData, &certChainHash) ; err == nil && len(rest) == 0":    "isCCH",
+					"rest, err := tls.Unmarshal(leaf.ExtraData, &precertChain) ; err == nil && len(rest) == 0":     "isPCE",
+					"rest, err := tls.Unmarshal(leaf.ExtraData, &certChain) ; err == nil && len(rest) == 0":        "isCC",
+					"rest, err := asn1.Unmarshal(chainBytes, &chain) ; err != nil":                                  "derBad",
+					"rest, err := asn1.Unmarshal(chainBytes, &entries) ; err != nil":                                "derBad"},
+				AppendEffect: map[string]string{"stmt:leaf.ExtraData=extraData": "assigned_ := true"},
+				Repl: map[string]string{"leaf == nil": "leafNil", "len(rest) > 0": "derTrailing", "len(hash) == 0": "(!hashNonEmpty)", "len(hash) > 0": "hashNonEmpty",
+					"len(precertChainHash.IssuanceChainHash) > 0": "hashNonEmpty", "len(certChainHash.IssuanceChainHash) > 0": "hashNonEmpty",
+					"len(precertChainHash.IssuanceChainHash) == 0": "(!hashNonEmpty)", "len(certChainHash.IssuanceChainHash) == 0": "(!hashNonEmpty)"}})},
+		// the external-storage BuildLogLeaf: (is-error, "the chain was handed to add")
+		{"indirectBuildBody", handlerKernel(sv, "indirectIssuanceChainService.BuildLogLeaf", "indirectBuildBody",
+			"(encodingFails derFails addFails leafFails : Bool)", "Nat × Bool × Bool", "let added_ := false\n  ", "(0, false, added_)",
+			Spec{Kind: "u64", Lazy: true, Canon: true, Ret: "statusstate", StateVars: []string{"added_"}, Ignore: []string{"klog."},
+				Status: map[string]int{"nil": 0, "*": 1},
+				ErrCalls: map[string]string{"asn1.Marshal": "derFails", "s.add": "addFails|added_ := (!addFails)", "util.BuildLogLeafWithChainHash": "leafFails"},
+				InitCondByCall: map[string]string{".ExtraDataForChain": "encodingFails"}})},
+		{"directBuildBody", handlerKernel(sv, "directIssuanceChainService.BuildLogLeaf", "directBuildBody",
+			"(leafFails : Bool)", "Nat × Bool", "", "(0, false)",
+			Spec{Kind: "u64", Lazy: true, Ret: "statusstate", Ignore: []string{"klog."}, Status: map[string]int{"nil": 0, "leaf": 1},
+				ErrCalls: map[string]string{"util.BuildLogLeaf": "leafFails"}})},
+		{"directFixBody", handlerKernel(sv, "directIssuanceChainService.FixLogLeaf", "directFixBody", "", "Bool", "", "true",
+			Spec{Kind: "u64", Lazy: true, Ret: "errbool"})},
+		{"extraLayout", layoutChoiceFact("trillian/util/log_leaf.go")},
+	}})
+}
+
+// layoutChoiceFact: which of the four extra-data structs util.buildLogLeaf encodes, as a function of "a chain hash was given"
+// and isPrecert: buildLogLeaf branches on `chainHash == nil` / `!= nil` between ExtraDataForChain and ExtraDataForChainHash, each
+// of which branches on isPrecert between two `ct.<Struct>{…}` literals.
+func layoutChoiceFact(rel string) func() string {
+	return func() string {
+		pick := func(fn string) (string, string) { // (struct when isPrecert, struct otherwise)
+			fd := mustFunc(rel, fn)
+			var yes, no string
+			for _, st := range findStmts(fd, func(s ast.Stmt) bool { is, ok := s.(*ast.IfStmt); return ok && is.Init == nil }) {
+				is := st.(*ast.IfStmt)
+				c := norm(src(is.Cond))
+				if c != "isPrecert" && c != "!isPrecert" {
+					continue
+				}
+				lit := func(list []ast.Stmt) string {
+					out := ""
+					for _, s := range list {
+						ast.Inspect(s, func(n ast.Node) bool {
+							if cl, ok := n.(*ast.CompositeLit); ok && strings.HasPrefix(src(cl.Type), "ct.") && out == "" {
+								out = strings.TrimPrefix(src(cl.Type), "ct.")
+							}
+							return true
+						})
+					}
+					return out
+				}
+				eb, ok := is.Else.(*ast.BlockStmt)
+				if !ok {
+					failf(is, "isPrecert branch without else")
+				}
+				yes, no = lit(is.Body.List), lit(eb.List)
+				if c == "!isPrecert" {
+					yes, no = no, yes
+				}
+			}
+			if yes == "" || no == "" {
+				panic(bail{rel + ": " + fn + " does not choose between two ct.<Struct> literals on isPrecert"})
+			}
+			return yes, no
+		}
+		cp, cn := pick("ExtraDataForChain")
+		hp, hn := pick("ExtraDataForChainHash")
+		fd := mustFunc(rel, "buildLogLeaf")
+		okShape := false
+		for _, st := range findStmts(fd, func(s ast.Stmt) bool { is, ok := s.(*ast.IfStmt); return ok && is.Init == nil }) {
+			is := st.(*ast.IfStmt)
+			c := norm(src(is.Cond))
+			if c != "chainHash==nil" && c != "chainHash!=nil" {
+				continue
+			}
+			eb, ok := is.Else.(*ast.BlockStmt)
+			if !ok {
+				continue
+			}
+			a, b := src(is.Body), src(eb)
+			if c == "chainHash!=nil" {
+				a, b = b, a
+			}
+			okShape = strings.Contains(a, "ExtraDataForChain(") && strings.Contains(b, "ExtraDataForChainHash(")
+		}
+		if !okShape {
+			panic(bail{rel + ": buildLogLeaf no longer chooses ExtraDataForChain for a nil chainHash and ExtraDataForChainHash otherwise"})
+		}
+		return fmt.Sprintf("/-- generated from %s: the struct util.buildLogLeaf encodes as extra data (ExtraDataForChain / ExtraDataForChainHash) -/\ndef extraLayout (hashGiven isPrecert : Bool) : String :=\n  if hashGiven then (if isPrecert then %q else %q) else (if isPrecert then %q else %q)\n", rel, hp, hn, cp, cn)
+	}
+}
